@@ -313,7 +313,9 @@ theorem matches_bridge (ext : Py.Ext) (n : Nat) (dm : Bool) (e : Py.Env) (effs :
           have hne : ¬ ((xs.length : Int) + 1 = 0) := by omega
           simp [py_norm, optNatV, blankLast, Py.H.val, Py.H.letv, Py.H.cond, Py.H.ret, Py.len, hne]
       · have he' : ¬ (e0 : Int) = (i : Int) := by omega
-        simp [py_norm, optNatV, blankLast, Py.H.val, Py.H.letv, Py.H.cond, Py.H.ret, he, he']
+        have hb : (e0 == i) = false := by simpa using he
+        have hb' : ((e0 : Int) == (i : Int)) = false := by simpa using he'
+        simp [py_norm, optNatV, blankLast, Py.H.val, Py.H.letv, Py.H.cond, Py.H.ret, he, he', hb, hb']
   subst hcv
   clear hc
   obtain ⟨c1, c2, c3, c4⟩ := hinv
